@@ -423,6 +423,8 @@ impl Tree {
 	/// harness probe must not read while a parked thread holds it for writing).
 	pub fn verif_active_memtable_readable(&self) -> bool {
 		self.core.inner.active_memtable.try_read().is_ok()
+			&& self.core.inner.immutable_memtables.try_read().is_ok()
+			&& self.core.inner.level_manifest.try_read().is_ok()
 	}
 
 	pub fn verif_stall_counts(&self) -> (usize, usize) {
